@@ -120,6 +120,9 @@ def xy_seq(mns, x, y, cartesian_grid=True):
     # dicksons with alpha=0 are the monomials
     x_seq = list(dickson1_seq(ms, 0, x))
     y_seq = list(dickson1_seq(ns, 0, y))
+    # D_0 = 2 for the Dickson polynomials of the first kind, but the monomial x^0 = 1
+    x_seq[0] = np.ones_like(x_seq[0])
+    y_seq[0] = np.ones_like(y_seq[0])
 
     out = []
     for m, n in mns:
